@@ -91,8 +91,9 @@ EXTRA_MOLS = {
               ("H", (-0.515, 0.892, -0.36)), ("H", (-0.515, -0.892, -0.36))], 0, 0),
     "CH4": ([("C", (0.0, 0.0, 0.0)), ("H", (0.629, 0.629, 0.629)), ("H", (-0.629, -0.629, 0.629)),
              ("H", (-0.629, 0.629, -0.629)), ("H", (0.629, -0.629, -0.629))], 0, 0),
+    "HCl": ([("H", (0.0, 0.0, 0.0)), ("Cl", (0.0, 0.0, 1.275))], 0, 0),
 }
-NATM = {"He": 1, "Li": 1, "H2": 2, "LiH": 2, "HF": 2, "H2O": 3, "HOF": 3, "NH2": 3, "NH3": 4, "H2O2": 4, "CH3F": 5, "CH4": 5}
+NATM = {"HCl": 2, "He": 1, "Li": 1, "H2": 2, "LiH": 2, "HF": 2, "H2O": 3, "HOF": 3, "NH2": 3, "NH3": 4, "H2O2": 4, "CH3F": 5, "CH4": 5}
 
 
 # ---------------------------------------------------------------------------------------------
@@ -162,6 +163,9 @@ def _sdmx_cfgs(tier, rng):
                      nspin=1 + (n % 2), threads=threads[n % len(threads)])
             if NATM[c["mol"]] >= 4 and c["basis"] in ("cc-pvdz", "def2-svp") and kind == "sdmxfull":
                 c["basis"] = "6-31g"
+            if n % 4 == 3:
+                # general contractions with l >= 1 (several radial functions per p / d shell): second-row cc-pVDZ, Roos ANO
+                c["mol"], c["basis"] = [("HCl", "cc-pvdz"), ("H2O", "roos-dz"), ("HF", "roos-dz")][(n // 4) % 3]
             # block of grid points as the integrator passes them: usually several hundred, sometimes tiny / odd sizes
             c["ngrid"] = int(rng.choice([5, 17, 127, 300, 513, 800, 1200], p=[0.06, 0.06, 0.1, 0.28, 0.2, 0.2, 0.1]))
             out.append(c)
